@@ -1,3 +1,4 @@
+import IastModel.Lemmas.Master
 import IastModel.Rewriter.Rewrite
 import IastModel.Lemmas.Monad
 /-
@@ -35,5 +36,33 @@ theorem prologue_iff_modified (pro : List Node) (p : Node) (s : St) :
     let r := (do let s ← get; if s.status == .modified then pure (insertPrologue pro p) else pure p : M Node) s
     r.1 = if s.status = .modified then insertPrologue pro p else p := by
   cases hs : s.status <;> simp [run_bind, run_get, run_pure, hs]
+
+
+/-! ### the full statement, for every program: the status never disagrees with the content -/
+
+/-- **C12 (status ⇔ content).**  For every configuration, fuel and source program (hypotheses as in
+    `master`), if the rewrite is not refused: the status is `modified` exactly when the output contains
+    at least one hook call, in which case the output is the instrumented program with the prologue
+    inserted; it is `notModified` exactly when the output contains no hook call at all. -/
+theorem status_agrees_with_content (cfg : Config) (fuel : Nat) (p : Node)
+    (h0 : ns p = 0) (ht : targetsOk p = true)
+    (hnc : (transformProgram cfg fuel p).status ≠ .cancelled) :
+    ((transformProgram cfg fuel p).status = .modified ↔ 0 < hookCount (transformProgram cfg fuel p).out) ∧
+    ((transformProgram cfg fuel p).status = .notModified ↔ hookCount (transformProgram cfg fuel p).out = 0) ∧
+    ((transformProgram cfg fuel p).status = .modified →
+      ∃ p1, (transformProgram cfg fuel p).out = insertPrologue (prologue cfg.dsts) p1) := by
+  obtain ⟨hc, _, hm, hn, hp⟩ := master cfg fuel p h0 ht hnc
+  refine ⟨?_, ?_, ?_⟩
+  · rw [hm, hc]
+    constructor
+    · intro h; exact List.length_pos_iff.mpr h
+    · intro h; exact List.length_pos_iff.mp h
+  · rw [hn, hc]
+    constructor
+    · intro h; simp [h]
+    · intro h; exact List.eq_nil_of_length_eq_zero h
+  · intro h
+    obtain ⟨p1, h1, _⟩ := hp h
+    exact ⟨p1, h1⟩
 
 end IastModel.C12
